@@ -303,6 +303,14 @@ def ident(x):
     return (type(x).__name__, x)
 
 
+def textalike():
+    """values whose TEXT (str / isoformat) equals another element that is a string"""
+    import datetime
+
+    return {"date": datetime.date(2021, 3, 4), "date-str": "2021-03-04", "dt": datetime.datetime(2021, 3, 4, 5, 6, 7), "dt-str": "2021-03-04 05:06:07",
+            "dt-iso": "2021-03-04T05:06:07", "none": None, "none-str": "None", "int": 1, "int-str": "1", "true": True, "true-str": "True", "float": 1.0, "float-str": "1.0"}
+
+
 def lookalike_case(args):
     """map_over_range / call_batch over values that compare equal in Python but are different arguments: every one
     is its own call (own body run, own memento), exactly as with individual calls."""
@@ -310,6 +318,10 @@ def lookalike_case(args):
     from ..fixtures import c15fx as fx
 
     kind, batch, pre, api = args
+    names = None
+    if batch and isinstance(batch[0], str) and batch[0].startswith("@"):  # named values (not JSON-representable themselves)
+        names = (list(batch), list(pre))
+        batch, pre = [textalike()[n[1:]] for n in batch], [textalike()[n[1:]] for n in pre]
     top = scratch_dir("c15l")
     out = {"evaluations": 1, "states": 1, "transitions": len(batch), "traces": 1, "violations": [], "outcomes": []}
     try:
@@ -348,7 +360,7 @@ def lookalike_case(args):
         if bad:
             sig = "%s|%s|lookalike|premem:%s|%s" % (kind, api, "some" if pre else "none", bad[0])
             out["violations"].append((sig, bad[1] + "\nbackend=%s batch=%r pre-memoized=%r api=%s" % (kind, batch, pre, api),
-                                      {"lookalike": [kind, batch, pre, api]}))
+                                      {"lookalike": [kind, names[0] if names else batch, names[1] if names else pre, api]}))
         out["outcomes"].append("look|%s|%r|%r|%s" % (kind, batch, pre, api))
     finally:
         rm(top)
@@ -398,6 +410,13 @@ def run(ctx):
                     for kind in ("mem", "fsc") if not thorough else ("mem", "fs", "fsc"):
                         for api in ("range", "batch"):
                             lt.append((kind, list(batch), list(pre), api))
+    tn = ["@" + n for n in textalike()]
+    for batch in itertools.permutations(tn, 2):
+        for kind in ("mem", "fsc") if not thorough else ("mem", "fs", "fsc"):
+            for api in ("range", "batch"):
+                lt.append((kind, list(batch), [], api))
+                if thorough:
+                    lt.append((kind, list(batch), [batch[0]], api))
     ctx.merge(pmap(lookalike_case, lt, chunksize=16))
     # long batches, and batches issued from inside a running function
     st = [(kind, n, api) for kind in (("fs",) if not thorough else ("mem", "fs", "fsc")) for n in ((63, 64, 65, 130) if not thorough else (63, 64, 65, 127, 128, 129, 257, 1025))
